@@ -174,6 +174,16 @@ def fam_deps2():
     return Family("deps2", v, ["s2", "s3"], ["o1"], ["all"], init={"s1": "s1:0", "s2": "s2:0", "s3": "s3:0"}, quick=True)
 
 
+def fam_linkout():
+    # a shell command whose output is a symbolic link (to a file it writes next to it): outputs are recorded and
+    # validated through stat(), which follows the link
+    L = {"x-link-outputs": "1"}
+    b = Desc("base", [Cmd("C1", ["s1"], ["o1"], attrs=L), Cmd("C2", ["o1", "s2"], ["o2"])], {"all": ["o2"], "mid": ["o1"]})
+    v = [b, retag(b, "tag-C1", "C1"), replace(b, "plain", Cmd("C1", ["s1"], ["o1"])),
+         replace(b, "both", Cmd("C2", ["o1", "s2"], ["o2"], attrs=L))]
+    return Family("linkout", v, ["s1", "s2"], ["o1", "o2"], ["all", "mid"], quick=True)
+
+
 def fam_chain3():
     b = Desc("base", [Cmd("C1", ["s1"], ["o1"]), Cmd("C2", ["o1"], ["o2"]), Cmd("C3", ["o2", "s2"], ["o3"])],
              {"all": ["o3"], "mid": ["o2"]})
@@ -321,7 +331,7 @@ def fam_default():
 
 def all_families():
     fs = [fam_chain(), fam_diamond(), fam_multi(), fam_virt(), fam_dir(), fam_tools(), fam_typedir(),
-          fam_isdir(), fam_aood(), fam_allowmissing(), fam_deps(), fam_deps2(), fam_chain3(), fam_fanin(), fam_fanout(),
+          fam_isdir(), fam_aood(), fam_allowmissing(), fam_deps(), fam_deps2(), fam_linkout(), fam_chain3(), fam_fanin(), fam_fanout(),
           fam_phonyfile(), fam_dirchain(), fam_dirmulti(), fam_srcdir2(), fam_mkdirs(), fam_links(),
           fam_twoprod(), fam_selfgen(), fam_nodetype(), fam_virtchain(), fam_multi3(), fam_modout(), fam_default()]
     return fs
